@@ -34,12 +34,16 @@ def classOf (c : Char) : CClass :=
   else if c = 's' then .space
   else .other
 
+/-- one entry per distinct character of the request (requests may be thousands of characters long) -/
+def mkTable (cps : List Char) (classes : String) : List (Char × CClass) :=
+  (cps.zip (classes.toList.map classOf)).foldl
+    (fun (acc : List (Char × CClass)) p => if acc.any (·.1 = p.1) then acc else p :: acc) []
+
 /-- the classification function for one request: a finite table, ASCII classes elsewhere -/
-def mkCls (cps : List Char) (classes : String) : Char → CClass :=
-  let tbl := cps.zip (classes.toList.map classOf)
-  fun c => match tbl.find? (·.1 = c) with
-    | some (_, k) => k
-    | none => asciiCls c
+def clsOfTable (tbl : List (Char × CClass)) (c : Char) : CClass :=
+  match tbl.find? (·.1 = c) with
+  | some (_, k) => k
+  | none => asciiCls c
 
 def optName? (s : String) : Option (Option Token) :=
   if s == "N" then some none else (parseCps? s).map some
@@ -129,11 +133,13 @@ def handle (op : String) (args : List String) : Option String :=
   match op, args with
   | "parser.lex", [cps, classes] =>
     some (match parseCps? cps with
-      | some cs => "ok " ++ showToks (lex (mkCls cs classes) cs)
+      | some cs =>
+        let tbl := mkTable cs classes          -- computed once per request
+        "ok " ++ showToks (lex (clsOfTable tbl) cs)
       | none => "bad-args")
   | "parser.lex", [cps] =>
     some (match parseCps? cps with
-      | some cs => "ok " ++ showToks (lex (mkCls cs "") cs)
+      | some cs => "ok " ++ showToks (lex (clsOfTable []) cs)
       | none => "bad-args")
   | "parser.parse", [flags, dflt, year, century, tzn, tzi, info, cps, classes] =>
     some (match parseIntList? flags, (parseIntList? dflt).bind DT.ofList?, year.toInt?, century.toInt?,
@@ -145,7 +151,8 @@ def handle (op : String) (args : List String) : Option String :=
                             fuzzyWithTokens := fwt != 0, ignoretz := ig != 0 }
           let cs' := if cps == "-" then [] else cs
           let clss := if classes == "-" then "" else classes
-          Py.showR showResult (parse (mkCls cs' clss) inf o tzn tzi d cs')
+          let tbl := mkTable cs' clss
+          Py.showR showResult (parse (clsOfTable tbl) inf o tzn tzi d cs')
         | none => "bad-args"
       | _, _, _, _, _, _, _ => "bad-args")
   | "parser.assign", [n0, n1, name] =>
@@ -173,7 +180,8 @@ def handle (op : String) (args : List String) : Option String :=
     -- the Decimal kernel: int(v), v % 1 truthiness, int(60 * (v % 1))
     some (match parseCps? cps with
       | some cs =>
-        let cls := mkCls cs classes
+        let tbl := mkTable cs classes
+        let cls := clsOfTable tbl
         (match toDecimal cls cs with
          | .error e => "err " ++ e.name
          | .ok v => match v.rem1 with
